@@ -314,6 +314,9 @@ let run_op (g1 : bool) (dbg : bool) (op : str) (a : tok list) : str =
      | "egct" -> r (egct_try_from k o c) (egct_to_bytes k o c)
      | "egproof" -> r (egp_try_from k o c) (egp_to_bytes k o c)
      | _ -> "unknown-type:" ^ ty)
+  | "skenum_from_le" ->
+    (match sk_enum_from_le_bytes k o (bytes_of (arg 0)) with
+     | Some (cv, s) -> "some:" ^ hex_of_bytes (sk_enum_to_le_bytes k o cv s) | None -> "none")
   | "skenum_from_be" ->
     (match sk_enum_from_be_bytes k o (bytes_of (arg 0)) with
      | Some (cv, s) -> "some:" ^ hex_of_bytes (sk_enum_to_bytes k o cv s) | None -> "none")
